@@ -1,4 +1,5 @@
 """C09 - ML objectives equal their definitions for any thread count and batch size (DESIGN 3, C09)."""
+import re
 import sympy as sp
 
 from ..facts import AnalysisBroken, walk, strip_targs
@@ -330,6 +331,79 @@ def rule_iterator_chunks(F, R):
     R.floor("R-C09-5", n, 3, "iterator loops")
 
 
+def inline_text(f, node, depth=0):
+    """printed expression with const locals (initialised once, not lambdas) replaced by their initialisers"""
+    t = pp(node)
+    if depth > 4:
+        return t
+    for y in walk(node):
+        if y["k"] == "ref" and y.get("dk") == "var":
+            v, _ = find_var(f, y["d"])
+            if v is not None and v.get("c") and skip(v["c"][0])["k"] != "lambda":
+                t = re.sub(r"(?<![\w.])%s(?![\w(])" % re.escape(v["n"]), inline_text(f, v["c"][0], depth + 1), t)
+    return t
+
+
+def rule_cache(F, R):
+    """R-C09-6: the cached and the uncached paths of the dataset iterators deliver the same data for a range"""
+    n = 0
+    for cls, acc, cache, member in (("nano::targets_iterator_t", "targets", "cache_targets", "m_targets"), ("nano::flatten_iterator_t", "flatten", "cache_flatten", "m_flatten")):
+        fa = [f for f in F.in_file("src/dataset/iterator.cpp") if f.cls == cls and f.name == acc and len(f.params) == 2 and "tensor_range_t" in (f.params[1].get("t") or "")]
+        fc = [f for f in F.in_file("src/dataset/iterator.cpp") if f.cls == cls and f.name == cache]
+        if len(fa) != 1 or len(fc) != 1:
+            raise AnalysisBroken("%s::%s / %s not found" % (cls, acc, cache))
+        fa, fc = fa[0], fc[0]
+        n += 1
+        tn, rn = fa.params[0]["n"], fa.params[1]["n"]
+        ifs = [x for x in fa.nodes() if x["k"] == "if"]
+        rets = [x for x in fa.nodes() if x["k"] == "return" and x.get("c")]
+        inst = cls.split("::")[-1]
+        ok = len(ifs) == 1 and len(rets) == 2 and "else" in ifs[0]["r"]
+        if not ok:
+            R.bad("R-C09-6", inst + " accessor", fa.loc(), "expected `if (cached) return cache.slice(range); else return <computed>`")
+            continue
+        cond = inline_text(fa, ifs[0]["c"][ifs[0]["r"].index("cond")])
+        then_ret = [r for r in rets if any(y is r for y in walk(ifs[0]["c"][ifs[0]["r"].index("then")]))]
+        else_ret = [r for r in rets if any(y is r for y in walk(ifs[0]["c"][ifs[0]["r"].index("else")]))]
+        okg = re.fullmatch(r"\(%s\.size<0>\(\) == (m_samples|this->samples\(\)|samples\(\))\.size\(\)\)" % member, cond.replace("this.", "this->")) is not None
+        okt = len(then_ret) == 1 and pp(then_ret[0]["c"][0]) == "%s.slice(%s)" % (member, rn)
+        R.check(okg and okt, "R-C09-6", inst + " cached path", fa.loc(), "when the cache covers all samples the accessor returns cache.slice(range)",
+                "cached path is `%s -> %s`" % (cond, pp(then_ret[0]["c"][0]) if then_ret else "?"))
+        unc = inline_text(fa, else_ret[0]["c"][0]) if len(else_ret) == 1 else None
+        # the cache is filled, chunk by chunk, with the very expression of the uncached path
+        lam = [g for _, g in F.lambdas_in(fc) if len(g.params) == 3]
+        okc = len(lam) == 1
+        why = "cache filler lambda not found"
+        if okc:
+            g = lam[0]
+            b, e, t3 = (p["n"] for p in g.params)
+            asg = [x for x in g.nodes() if assignment(x) and pp(assignment(x)[0]).startswith(member + ".slice(")]
+            okc = len(asg) == 1
+            why = "the cache is not written by one range slice assignment"
+            if okc:
+                lhs = inline_text(g, assignment(asg[0])[0])
+                rhs = inline_text(g, assignment(asg[0])[1])
+                want_rng = "make_range(%s, %s)" % (b, e)
+                norm = lambda z: z.replace("this->", "").replace("dataset().", "dataset.").replace("samples()", "m_samples").replace(" ", "")
+                u2 = norm(unc or "").replace(rn, want_rng).replace("[%s]" % tn, "[%s]" % t3)
+                # local aliases: `samples` / `dataset` references in the flatten iterator
+                c2 = norm(rhs)
+                u2 = re.sub(r"(?<![\w.])samples(?![\w(])", "m_samples", u2)
+                c2 = re.sub(r"(?<![\w.])samples(?![\w(])", "m_samples", c2)
+                c2, u2 = c2.replace(" ", ""), u2.replace(" ", "")
+                okc = lhs.replace(" ", "") == ("%s.slice(%s)" % (member, want_rng)).replace(" ", "") and c2 == u2
+                why = "the cache is filled with `%s` for chunk %s while the uncached path computes `%s`" % (c2, lhs, u2)
+            mp = [c for c in fc.calls(lambda c: callee(c).split("::")[-1] == "map")]
+            rs = [c for c in fc.calls(lambda c: callee(c).split("::")[-1] == "resize" and pp(obj(c)) == member)]
+            okm = len(mp) == 1 and inline_text(fc, args(mp[0])[0]).replace("this->", "").replace("samples()", "m_samples") == "m_samples.size()" and pp(args(mp[0])[1]) == "batch()"
+            okc = okc and okm and bool(rs)
+            if not okm:
+                why = "the cache is not filled over map(samples.size(), batch())"
+        R.check(bool(okc), "R-C09-6", inst + " cache content", fc.loc(), "the cache holds, range by range, exactly what the uncached accessor computes for that range",
+                "cached and uncached data differ: " + why)
+    R.floor("R-C09-6", n, 2, "cached accessors")
+
+
 def run(ctx):
     R = ctx.report
     F = ctx.facts(TUS)
@@ -337,6 +411,7 @@ def run(ctx):
     rule_coverage(F, R)
     rule_regularisers(F, R)
     rule_iterator_chunks(F, R)
+    rule_cache(F, R)
     from . import c17
     # chunk tiling of pool_t::map itself (shared with C17)
     R.note("chunk tiling of pool_t::map is decided by R-C17-6 (check C17)")
